@@ -3475,6 +3475,7 @@ class DecVar(Vars):
                          dvars.vtype, dvars.name)
         self.dro_model = dro_model
         self.event_adapt = [list(range(dro_model.num_scen))]
+        self.default_event = True
         self.rand_adapt = None
         self.ro_first = - 1
         self.fixed = fixed
@@ -3534,7 +3535,7 @@ class DecVar(Vars):
 
         for event in events:
             index = self.dro_model.series_scen[event]
-            if index in self.event_adapt[0]:
+            if self.default_event and index in self.event_adapt[0]:
                 self.event_adapt[0].remove(index)
             else:
                 raise KeyError('Wrong scenario index or {0} '.format(event) +
@@ -3542,6 +3543,7 @@ class DecVar(Vars):
 
         if not self.event_adapt[0]:
             self.event_adapt.pop(0)
+            self.default_event = False
 
         self.event_adapt.append(list(self.dro_model.series_scen[events]))
 
